@@ -138,7 +138,8 @@ def stepWorker (body : Job → List JOp) (s : St) (i : Nat) (sig : Nat) : Option
         let (s', acts) := addInternal s a sig
         some ({ s' with ws := s'.ws.set i (.run j rest) }, acts)
   | some (.run j (.tryAdd a :: rest)) =>
-      if isFull s then some ({ s with ws := s.ws.set i (.run j rest), tryRefused := s.tryRefused ++ [a] }, [])
+      -- POOL_tryAdd: refused when the queue is full OR the pool is shutting down (the job would be dropped: not a success)
+      if isFull s || s.shutdown then some ({ s with ws := s.ws.set i (.run j rest), tryRefused := s.tryRefused ++ [a] }, [])
       else
         let (s', acts) := addInternal s a sig
         some ({ s' with ws := s'.ws.set i (.run j rest), tryOk := s'.tryOk ++ [a] }, acts)
@@ -168,7 +169,7 @@ def stepClient (s : St) (i : Nat) (sig : Nat) : Option (St × List Act) :=
           let (s', acts) := addInternal s j sig
           some (setClient s' i ⟨.ready, rest⟩, acts)
     | .ready, .tryAdd j :: rest =>
-        if isFull s then some (setClient { s with tryRefused := s.tryRefused ++ [j] } i ⟨.ready, rest⟩, [])
+        if isFull s || s.shutdown then some (setClient { s with tryRefused := s.tryRefused ++ [j] } i ⟨.ready, rest⟩, [])
         else
           let (s', acts) := addInternal s j sig
           some (setClient { s' with tryOk := s'.tryOk ++ [j] } i ⟨.ready, rest⟩, acts)
